@@ -142,6 +142,9 @@ func (x idx64) Sum(found []uint64, isNil bool) (*big.Int, uint64) {
 }
 func (x idx64) BatchEqual(w int, vals []int64) []uint64 { return x.b.BatchEqual(w, vals).ToArray() }
 func (x idx64) Transpose(w int, found []uint64, isNil bool) []uint64 {
+	if isNil && w == 0 {
+		return x.b.Transpose().ToArray() // documented as IntersectAndTranspose(0, existence)
+	}
 	return x.b.IntersectAndTranspose(w, found64(found, isNil)).ToArray()
 }
 func (x idx64) TransposeCounts(w int, found []uint64, isNil bool) map[uint64]int64 {
@@ -273,6 +276,9 @@ func (x idx32) Sum(found []uint64, isNil bool) (*big.Int, uint64) {
 }
 func (x idx32) BatchEqual(w int, vals []int64) []uint64 { return arr64(x.b.BatchEqual(w, vals)) }
 func (x idx32) Transpose(w int, found []uint64, isNil bool) []uint64 {
+	if isNil && w == 0 {
+		return arr64(x.b.Transpose())
+	}
 	return arr64(x.b.IntersectAndTranspose(w, found32(found, isNil)))
 }
 func (x idx32) TransposeCounts(w int, found []uint64, isNil bool) map[uint64]int64 {
